@@ -181,6 +181,40 @@ def walk_global(g):
             stack.extend(x)
 
 
+def rule_r6(ctx):
+    r = ctx.rule("C12.R6", "T2", "the retry timer is started only for a queued request: req0_retry_cb stops the timer as soon as it finds "
+                 "retry_queue empty, so every store retry_active = true (with the nni_sleep_aio it announces) is dominated by an "
+                 "append of a context to retry_queue or by a test that the queue is not empty -- otherwise the first tick "
+                 "stops the timer and the request that armed it is never retransmitted on NNG_OPT_REQ_RESENDTIME", floor=1)
+    prog = ctx.prog
+    n = 0
+    for f in prog.fns_in("reqrep0/req.c"):
+        if f.cfg_failed:
+            continue
+        sets = G.stores(f, "retry_active", "nonnull")
+        if not sets:
+            continue
+        apps = G.positions([c for c in f.calls(("nni_list_append", "nni_list_prepend")) if c.node["args"] and
+                            last_field(f.expand(c.node["args"][0])) == "req0_sock.retry_queue"])
+        nonempty = {}
+        for bid, k, atom, val in G.edge_facts(f):
+            if atom.get("k") == "call" and atom.get("fn") == "nni_list_empty" and atom["args"] and \
+                    last_field(f.expand(atom["args"][0])) == "req0_sock.retry_queue" and not val:
+                nonempty[bid] = k
+        for t in sets:
+            n += 1
+            if (apps and f.dominated_by((t.b, t.i), blocked=lambda b, i, e: (b, i) in apps)) or \
+                    (nonempty and G.dominated(f, (t.b, t.i), nonempty)):
+                r.ob(f, "retry_active = true line %s: a context is on retry_queue" % t.line)
+            else:
+                ctx.fail(r, f, "retry timer started with nothing on retry_queue", t.line,
+                         "%s marks the retry timer active at line %s on a path that did not put a context on retry_queue: "
+                         "req0_retry_cb finds the queue empty on its first tick and stops the timer; when the request later "
+                         "reaches a pipe nothing re-arms it, so it is sent once and never resent" % (f.name, t.line))
+    if n < 1:
+        raise AnalysisBroken("no store retry_active = true found in req.c")
+
+
 def run(ctx):
     ctx.guard(rule_r4)
     ctx.guard(rule_r1)
@@ -191,3 +225,4 @@ def run(ctx):
     for rr in ctx.rules:
         if rr.id == "C14.R4":
             rr.id = "C12.R5"
+    ctx.guard(rule_r6)
